@@ -19,18 +19,53 @@ type vfC14VethScenario struct {
 	IfNames   []string `json:"if_names"` // <= 8
 }
 
+// vfC14DNSName draws a DNS-1123 style name of exactly n bytes (n >= 1).
+func vfC14DNSName(t *rapid.T, n int, label string) string {
+	const alnum = "abcdefghijklmnopqrstuvwxyz0123456789"
+	var b []byte
+	switch rapid.IntRange(0, 2).Draw(t, label+"-shape") {
+	case 0:
+		// one repeated character: names that differ from a neighbour only in length / tail
+		ch := alnum[rapid.IntRange(0, len(alnum)-1).Draw(t, label+"-ch")]
+		b = make([]byte, n)
+		for i := range b {
+			b[i] = ch
+		}
+	default:
+		rs := rapid.SliceOfN(rapid.SampledFrom([]byte(alnum+"--.")), n, n).Draw(t, label+"-body")
+		b = append(b, rs...)
+	}
+	for _, i := range []int{0, n - 1} {
+		if b[i] == '-' || b[i] == '.' {
+			b[i] = 'x'
+		}
+	}
+	return string(b)
+}
+
 func vfC14GenVeth(t *rapid.T) vfC14VethScenario {
-	k8sName := rapid.StringMatching(`[a-z0-9]([-a-z0-9.]{0,60}[a-z0-9])?`)
+	// a namespace is a DNS label (<= 63 bytes), a pod name a DNS subdomain (<= 253 bytes);
+	// lengths around 63, around 140 (= 63+1+63+15 and neighbours) and at the upper limit are
+	// over-represented next to ordinary short names
+	nsLen := rapid.OneOf(rapid.IntRange(1, 16), rapid.IntRange(55, 63), rapid.IntRange(1, 63))
+	nameLen := rapid.OneOf(rapid.IntRange(1, 40), rapid.IntRange(56, 66), rapid.IntRange(110, 160),
+		rapid.IntRange(245, 253), rapid.IntRange(1, 253))
 	anyStr := rapid.StringN(0, 40, 120)
-	str := rapid.OneOf(k8sName, k8sName, k8sName, anyStr)
+	var name, namespace string
+	if rapid.IntRange(0, 7).Draw(t, "arbitrary") == 0 {
+		name, namespace = anyStr.Draw(t, "name"), anyStr.Draw(t, "namespace")
+	} else {
+		namespace = vfC14DNSName(t, nsLen.Draw(t, "nslen"), "ns")
+		name = vfC14DNSName(t, nameLen.Draw(t, "namelen"), "name")
+	}
 	ifName := rapid.OneOf(
 		rapid.SampledFrom([]string{"", "eth0", "eth1", "eth2", "net1", "eth00", "eth", "0", "eth0 ", "ETH0"}),
 		rapid.StringMatching(`[a-z]{1,5}[0-9]{0,3}`),
 		rapid.StringN(0, 15, 15),
 	)
 	s := vfC14VethScenario{
-		Name:      str.Draw(t, "name"),
-		Namespace: str.Draw(t, "namespace"),
+		Name:      name,
+		Namespace: namespace,
 		Prefix: rapid.OneOf(
 			rapid.Just("cali"), // plugin/terway defaultVethPrefix and both daemon callers
 			rapid.StringMatching(`[a-z]{0,4}`),
@@ -99,6 +134,16 @@ func vfC14RunVeth(c *vt.Ctx, s vfC14VethScenario) {
 	}
 	c.Labelf("distinct-interfaces=%d", len(canon))
 	c.Labelf("prefix-len=%d", len(s.Prefix))
+	switch kl := len(s.Namespace) + 1 + len(s.Name); {
+	case kl < 64:
+		c.Label("ns+name<64 bytes")
+	case kl < 128:
+		c.Label("ns+name 64..127 bytes")
+	case kl < 160:
+		c.Label("ns+name 128..159 bytes")
+	default:
+		c.Label("ns+name>=160 bytes")
+	}
 	if s.Prefix == "cali" {
 		c.Label("prefix=cali")
 	}
